@@ -52,6 +52,7 @@ func (p *Provider) start(ctx context.Context, ammoFile afero.File) error {
 	var ammoNum, passNum int
 	for {
 		passNum++
+		passStartNum := ammoNum
 		scanner := bufio.NewScanner(ammoFile)
 		if p.Config.MaxAmmoSize != 0 {
 			var buffer []byte
@@ -80,6 +81,10 @@ func (p *Provider) start(ctx context.Context, ammoFile afero.File) error {
 		err := scanner.Err()
 		if err != nil {
 			return errors.Wrap(err, "gPRC Provider scan() err")
+		}
+		if ammoNum == passStartNum {
+			// nothing to send in a whole pass (empty file or no chosen cases): don't re-read the file forever
+			return errors.New("no ammo in file")
 		}
 		if p.Passes != 0 && passNum >= p.Passes {
 			break
